@@ -335,3 +335,13 @@ package openapiv3
 //@   at-call Set requires maps_to_the_variant_key: arg0 == variant.DiscriminatorVal && arg1 == "#/components/schemas/" + spec.variantSchemaKey(msgName, variant.DiscriminatorVal)
 //@   loop 1 invariant count("Set") == old(count("Set")) + _i1
 //@   ensures one_entry_per_variant: count("Set") == old(count("Set")) + len(info.Variants)
+
+// ---- published header parameters are the declared headers (C09: what the document says about a header - name, location,
+// required, deprecated - is what the annotation says, so a request built from the document is not rejected for its headers) ----
+//@ func convertHeadersToParameters(headers []*sebufhttp.Header) (r []*v3.Parameter)
+//@   modifies *
+//@   ensures as_declared: forall k int :: 0 <= k && k < len(r) ==> r[k] != nil && r[k].In == "header" && (exists j int :: 0 <= j && j < len(headers) && r[k].Name == headers[j].GetName() && r[k].Name != "" && r[k].Required != nil && *r[k].Required == headers[j].GetRequired() && r[k].Deprecated == headers[j].GetDeprecated())
+//@   ensures none_dropped: forall j int :: 0 <= j && j < len(headers) && headers[j].GetName() != "" ==> (exists k int :: 0 <= k && k < len(r) && r[k].Name == headers[j].GetName())
+//@   loop 1 invariant forall k int :: 0 <= k && k < len(parameters) ==> parameters[k] != nil && parameters[k].In == "header"
+//@   loop 1 invariant forall j int :: 0 <= j && j < _i1 && headers[j].GetName() != "" ==> (exists k int :: 0 <= k && k < len(parameters) && parameters[k].Name == headers[j].GetName())
+//@   loop 1 invariant forall k int :: 0 <= k && k < len(parameters) ==> (exists j int :: 0 <= j && j < _i1 && parameters[k].Name == headers[j].GetName() && parameters[k].Name != "" && parameters[k].Required != nil && *parameters[k].Required == headers[j].GetRequired() && parameters[k].Deprecated == headers[j].GetDeprecated())
